@@ -274,6 +274,9 @@ def processRespList (i : Inst F K) : List (RespMsg F) → Inst F K × Bool
   | [] => (i, true)
   | r :: rest =>
     if r.ver = i.pid then processRespList i rest else
+    -- there is no justification phase in dc4bc: a complaint ends the step (fix c76d172; until then a complaint about the
+    -- machine's OWN deal was justified on the spot - `justify` below - and counted as an approval on that machine only)
+    if !r.status then (i, false) else
     match dkgProcessResponse i r with
     | (i', false) => (i', false)
     | (i', true) => processRespList i' rest
@@ -348,6 +351,8 @@ inductive Res (F : Type) where
   | responses (pid : Nat) (dealers : List Nat)
   /-- own index, master key, public polynomial -/
   | masterKey (pid : Nat) (key : Option F) (pubPoly : List F)
+  /-- own index, the share the partial signatures are made with (`none`: no message to sign, the key ring was not read), their number -/
+  | partials (pid : Nat) (share : Option F) (n : Nat)
   deriving DecidableEq
 
 /-- the end of the commits step: `NewDistKeyGenerator` with the dealer's threshold `t`, the instance is filed -/
@@ -474,6 +479,22 @@ def outcome (m : Machine F K) (round : String) (r : Res F) : Outcome F :=
     | some i => .errorResult i.pid
     | none => .fatal
   | r => .result r
+
+/-- `handleStateSigningAwaitPartialSigns`: `msgs` = how many messages the proposal expands to (`none`: the payload or its
+task list does not parse, or a range leaves the baked list); needs the round's instance (for the own index) and, if there is
+anything to sign, its key ring; writes nothing -/
+def signOp (m : Machine F K) (round : String) (payloadOk : Bool) (msgs : Option Nat) : Machine F K × Res F :=
+  if !payloadOk then (m, .err) else
+  match lookup round m.insts with
+  | none => (m, .err)
+  | some i =>
+    match msgs with
+    | none => (m, .err)
+    | some 0 => (m, .partials i.pid none 0)
+    | some (k + 1) =>
+      match lookup round m.rings with
+      | none => (m, .err)
+      | some kr => (m, .partials i.pid (some kr.share) (k + 1))
 
 /-- stop and start: the volatile instances are gone, the key rings stay -/
 def stop (m : Machine F K) : Machine F K := { m with insts := [] }
